@@ -14,7 +14,8 @@ RULE = ("(lock-step) seeded writer histories (insert / find_or_insert / erase ov
         "per step over the release/acquire memory, latest-message choice); (stress) TSan runs with 1 writer + 1-7 readers over "
         "scripts with stable (present-throughout, announced by a release counter) and churn keys; non-trivial = distinct "
         "lock-step script with at least one prefix split and one erase, plus distinct (family, readers) stress configurations "
-        "that completed with overlapping finds")
+        "that completed with overlapping finds; values have a destructor that writes a DEAD pattern and are destroyed only by the "
+        "caller protocol find -> erase -> grace period -> destroy; lock-step: no value destructor may run inside a library call")
 TRUSTED = ["extraction: ExtrOcamlBasic only; OCaml 4.13.1; comp/radixconc/driver.ml",
            "lock-step harness comp/radixconc/harness.cpp (g++ -fsanitize=address,undefined, -fno-access-control); stress harness "
            "comp/radixconc/stress.cpp (g++ -fsanitize=thread)",
@@ -45,7 +46,8 @@ def regen(c=None):
             detail = log[-700:]
     if c is not None:
         c.gen_obligation("Gen/RadixConcOrders.v (orders_sufficient actual = true; the orders embedded in the sequential model are the "
-                         "source's; kinds and program order of the writer's writes per case = the model's micro-step programs)", ok,
+                         "source's; kinds and program order of the writer's writes per case = the model's micro-step programs; "
+                         "erase / find_or_insert / find contain no destructor call)", ok,
                          "" if ok else detail)
     return ok
 
